@@ -72,6 +72,8 @@ inductive Ev
   | mq (m : Mut)
   | qEnd
   | errInternal
+  /-- a mutation call made from inside a handler: queue length seen, result -/
+  | nested (r : MutReq) (qlen : Nat) (res : Res)
 deriving Repr, DecidableEq, Inhabited
 
 structure Mach where
@@ -226,6 +228,10 @@ def issueNested (m : Mach) (r : MutReq) : Mach × Res :=
   | (m1, none) => (m1, .executed)
   | (m1, some tick) => (m1, .queued tick)
 
+/-- `issueNested` plus the trace entry the harness records. -/
+def issueLogged (m : Mach) (r : MutReq) : Mach :=
+  ((issueNested m r).1).emit (.nested r m.queue.length (issueNested m r).2)
+
 /-! ### calling handlers -/
 
 def getCount (m : Mach) (k : Nat × HName) : Nat :=
@@ -281,7 +287,7 @@ def processHandlers (orc : Oracle) (name : HName) :
         else (m, t, { res := false, panicked := pk })
       else
       let m1 := (bumpCount m k).emit (.h b name m.active)
-      let m2 := beh.muts.foldl (fun mm r => (issueNested mm r).1) m1
+      let m2 := beh.muts.foldl (fun mm r => issueLogged mm r) m1
       match beh.act with
       | .ret ok =>
         if name.isFinalName || ok then processHandlers orc name fuel (b + 1) m2 t pk
